@@ -23,6 +23,12 @@ func checkC15(c *Ctx, r *Report) {
 	borrow(c, r, c12R1, "C12.R1.stream-read", "C15.R1.stream-read", 3, "an envelope is read from the stream as a 2-octet length and then exactly that many octets (io.ReadFull), however the sender's writes were split", nil, "an envelope that arrives in more than one segment is cut and the transfer fails or loses records")
 	c15FreshTime(c, r, "C15.R4.fresh-time")
 	c15IxfrUpToDate(c, r, "C15.R2.ixfr-up-to-date")
+	r.rule("C15.R1.envelope-buffer", 1, "Transfer.ReadMsg reads each envelope into a MaxMsgSize buffer")
+	envelopeBuffer(c, r, "C15.R1.envelope-buffer")
+	r.rule("C15.R3.deadline-per-envelope", 2, "inAxfr and inIxfr re-arm the read deadline for every envelope")
+	perEnvelopeDeadline(c, r, "C15.R3.deadline-per-envelope")
+	r.rule("C15.R2.envelope-id", 2, "inAxfr and inIxfr compare the envelope's header ID with the query's")
+	envelopeIDCheck(c, r, "C15.R2.envelope-id")
 }
 
 // backEdges: edges u->h where h dominates u.
